@@ -27,6 +27,13 @@ TLoad ==
   /\ Ev("load")
   /\ LET e == Trace[l] IN IF e.err = "" /\ e.pan = "" THEN LoadOwn ELSE inst' = NoInst
 
+\* loaded from a 0.5.10/0.5.11 stream of the trie the preceding `new` describes: the
+\* loader re-encodes prefixes and rebuilds the leaf array inside Unmarshal; the content
+\* is the same node table
+TLegacyLoad ==
+  /\ Ev("legacyload")
+  /\ LET e == Trace[l] IN IF e.err = "" /\ e.pan = "" THEN LoadOwn ELSE inst' = NoInst
+
 \* the Model's visit sequence of a call, as node ids of the code (index - 1)
 ModelVisits(c, rd) ==
   LET v == IF rd.api \in {"GetID", "Get", "GetI"} THEN GetIDVisits(c.ks, c.nodes, c.o, rd.q)
@@ -58,7 +65,7 @@ TRace ==
   /\ Ev("racereport") /\ UNCHANGED inst
   /\ Report(l, "P:C11:race", IF Trace[l].races > 0 THEN {Trace[l].races} ELSE {})
 
-TNext == UNCHANGED iters /\ (TNew \/ TLoad \/ TConc \/ TStress \/ TRace)
+TNext == UNCHANGED iters /\ (TNew \/ TLoad \/ TLegacyLoad \/ TConc \/ TStress \/ TRace)
 
 Accepted == TLCGet("stats").diameter - 1 = Len(Trace)
 =============================================================================
